@@ -16,7 +16,9 @@ const char* extraTags[] = {"LIST", "cue ", "fact", "smpl", "JUNK", "abcd", "DATA
 std::string gen_base(Tape& t, size_t maxlen = 8) {
 	size_t n = 1 + t.below(maxlen);
 	std::string s;
-	for (size_t i = 0; i < n; ++i) { switch (t.below(4)) { case 0: s.push_back(char('a' + t.below(26))); break; case 1: s.push_back(char('A' + t.below(26))); break; case 2: s.push_back(char('0' + t.below(10))); break; default: s.push_back('_'); break; } }
+	for (size_t i = 0; i < n; ++i) { uint8_t b = t.u8(); switch (b % 4) { case 0: s.push_back(char('a' + t.below(26))); break; case 1: s.push_back(char('A' + t.below(26))); break; case 2: s.push_back(char('0' + t.below(10))); break;
+		default: if ((b & 0xF0) == 0xF0) s.push_back(b & 8 ? char(0xE9) : char(0xFF)); else if ((b & 0xF0) == 0xE0) s.push_back(" -!+,#&'()$%"[(b >> 2) & 3 ? (b >> 2) % 12 : 1]); else s.push_back('_'); break; } }   // rarely a byte >= 0x80 (a Latin-1 letter, 0xFF) or punctuation that sorts below '.'
+	// one name in eight extends ... (see gen_set): stems that are prefixes of each other are where the order by stem and the order by file name part ways
 	return s;
 }
 
@@ -84,9 +86,15 @@ void success_case(std::vector<Wav> ws, const refclm::WaveFormat& f, Tape& t, Sta
 	Out o = guarded([&] { ClmFile::CreateArchive(out, paths); }, &what);
 	V_CHECK(o == Out::Ok, "CreateArchive refused a legal WAV set (" << ws.size() << " files): " << what);
 	for (auto& w : ws) V_CHECK(slurp(w.path) == w.bytes, "input WAV modified");
-	// expected order
+	// expected order; with bytes >= 0x80 in a name (their rank against ASCII is the implementation's choice, ref_vol.h) the written index is judged by
+	// refvol::order_consistent inside the strict parser and the member-by-member checks follow its listing
 	std::vector<size_t> idx(ws.size()); for (size_t i = 0; i < idx.size(); ++i) idx[i] = i;
 	std::sort(idx.begin(), idx.end(), [&](size_t a, size_t b) { return refvol::icmp(ws[a].base, ws[b].base) < 0; });
+	{ bool hi = false; for (auto& w : ws) if (refvol::has_high_byte(w.base)) hi = true;
+	  if (hi) { std::vector<uint8_t> rawx = slurp(out); std::vector<std::string> listed; if (rawx.size() >= 60) { uint32_t cnt = refvol::get32(rawx, 56); for (uint32_t k = 0; k < cnt && 60 + 16 * size_t(k) + 16 <= rawx.size(); ++k) { std::string nm(reinterpret_cast<const char*>(&rawx[60 + 16 * size_t(k)]), 8); nm = nm.substr(0, nm.find('\0')); listed.push_back(nm); } }
+	    V_CHECK(listed.size() == ws.size(), "CLM index lists " << listed.size() << " names for " << ws.size() << " inputs");
+	    std::vector<char> used(ws.size(), 0); for (size_t k = 0; k < listed.size(); ++k) { bool ok = false; for (size_t i = 0; i < ws.size(); ++i) if (!used[i] && ws[i].base == listed[k]) { idx[k] = i; used[i] = 1; ok = true; break; } V_CHECK(ok, "CLM index lists " << jstr(listed[k]) << ", which is not the base name of an input (or is listed twice)"); }
+	    st.cls("names_with_bytes_above_0x7F"); } }
 	// raw bytes against the independent layout description
 	std::vector<uint8_t> raw = slurp(out); refclm::WaveFormat hf; std::vector<refclm::Entry> ents;
 	std::string err = refclm::parse_strict(raw, hf, ents);
@@ -169,6 +177,8 @@ std::vector<Wav> gen_set(Tape& t, const refclm::WaveFormat& f, size_t maxn, size
 	std::vector<Wav> ws; size_t n = t.below(maxn + 1);
 	for (size_t i = 0; i < n; ++i) {
 		Wav w = gen_wav(t, f, maxData);
+		// one later stem in five extends an earlier one by punctuation or a byte on either side of '.' (the stems a, a-b, a b, a_b, a\xFF ...)
+		if (i && t.below(5) == 0) { const std::string& b0 = ws[t.below(ws.size())].base; if (b0.size() <= 6) { w.base = volgen::case_variant(b0, t.u8()) + t.pick<std::string>({"-", " ", "!", "+", ",", "_", "0", "-b", " b", "\xFF", "\xE9", "(", "#"}); w.path.clear(); } }
 		bool clash; do { clash = false; for (auto& g : ws) if (refvol::ieq(g.base, w.base)) { clash = true; if (w.base.size() >= 8) w.base.resize(6); w.base += char('0' + i); } } while (clash);
 		ws.push_back(w);
 	}
@@ -268,6 +278,12 @@ void run_sweep(Stats& st) {
 		for (unsigned i = 0; i < 3; ++i) { Wav w; w.base = std::string(1, char('p' + i)) + "_s"; w.ext = ".wav"; w.dir = ""; w.spec.fmt = f; w.spec.fmt18 = i & 1; w.spec.data.resize(i == 1 ? 8 : 5 + i); for (size_t k = 0; k < w.spec.data.size(); ++k) w.spec.data[k] = uint8_t(16 * (i + 1) + k); w.bytes = refclm::build_wav(w.spec); ws.push_back(w); }
 		const unsigned ops[3] = {x, y, z}; Tape t(tp); success_case(ws, f, t, st, ops);
 	}
+	// stems that are prefixes of one another, extended by characters on either side of '.' in the byte order: the index is ordered by STEM
+	for (unsigned k = 0; k < 14; ++k) { if (!sw("prefix_stems", k)) continue;
+		const char* ext[14] = {"-b", " b", "!", "+", ",", "#", "(", "_b", "0", "b", "\xFF", "\xE9", "-", "$"};
+		std::vector<Wav> ws; const std::string stems[3] = {"a", std::string("a") + ext[k], std::string("A") + ext[(k + 1) % 14]};
+		for (unsigned i = 0; i < 3; ++i) { if (i == 2 && refvol::ieq(stems[2], stems[1])) continue; Wav w; w.base = stems[i]; w.ext = i == 1 ? ".WAV" : ".wav"; w.dir = ""; w.spec.fmt = f; w.spec.data.assign(3 + i, uint8_t(0x21 + i)); w.bytes = refclm::build_wav(w.spec); ws.push_back(w); }
+		Tape t(tp); success_case(ws, f, t, st); }
 	if (sw("dup_dotted")) { std::vector<Wav> ws; const char* names[3][2] = {{"a", ".1"}, {"a.5", ".wav"}, {"a", ".9"}};
 		for (auto& n : names) { Wav w; w.base = n[0]; w.ext = n[1]; w.dir = ""; w.spec.fmt = f; w.spec.data = {1, 2, 3, 4}; w.bytes = refclm::build_wav(w.spec); ws.push_back(w); }
 		refusal_case(ws, "duplicate_names_separated_by_a_dotted_name", st); }
